@@ -512,10 +512,16 @@ def produce(fa, req):
         return dict(req=req, status="declined", why="%s: %s" % (type(ex).__name__, str(ex)[:120]))
     msgs = [str(w.message) for w in wlist]
     res = dict(req=req, status="accepted", text=text,
-               warned=dict(undefined_reference=sum(1 for m in msgs if m.startswith("undefined reference")),
-                           constant_not_implemented=sum(1 for m in msgs if "not implemented in" in m or "does not implement" in m)))
+               warned=dict(undefined_reference=sum(1 for m in msgs if m.startswith("undefined reference")), constant_not_implemented=0))
     proj, exprs = project(g)
     res["proj"] = proj
+    # "the printer itself says it cannot render a named constant of this graph" is decided from the live table and the FACT
+    # that a warning was issued, never from the wording of the warning (wording is not constrained by the property)
+    table = getattr(target, "constant_to_target", {})
+    missing = sorted({n["v"].get("name") for n in proj["nodes"] if n["k"] == "constant" and n["v"].get("c") == "named"
+                      and table.get(n["v"].get("name"), NotImplemented) is NotImplemented})
+    if missing and msgs:
+        res["warned"]["constant_not_implemented"] = len(missing)
     if any(p["t"] == "list" for p in proj["params"]) or any(n["k"] in ("list", "item", "len") or n["t"].startswith("list") for n in proj["nodes"]):
         return dict(req=req, status="build_skip", why="list-valued program")
     # (classification aid) arguments whose reference name differs from their own name: an expression named by .reference()
